@@ -103,7 +103,15 @@ def run(ctx: common.Ctx):
       return Fraction(0) if rng.random() < 0.35 else cx.small_q(rng, den=(2, 3, 4), lo=-3, hi=4)
     a_ex = [[c() for _ in range(i)] + ([c()] if rng.random() < 0.2 else []) for i in range(1, s)]
     a_im = [[c() for _ in range(i)] + [cx.small_q(rng, den=(4, 8), lo=0, hi=3)] for i in range(1, s)]
-    return a_ex, a_im, [c() for _ in range(s)], [c() for _ in range(s)]
+    b_ex, b_im = [c() for _ in range(s)], [c() for _ in range(s)]
+    if s >= 2 and rng.random() < 0.3:
+      # stiffly accurate implicit part (b_im = last row of a_im) with a vanishing last explicit weight, while the
+      # explicit weights are NOT the last explicit row: the last stage is not the new state (seeded C06-5)
+      b_im, b_ex[-1] = list(a_im[-1]), Fraction(0)
+      if all(b_ex[j] == (a_ex[-1][j] if j < s - 1 else 0) for j in range(s)):
+        b_ex[0] += Fraction(1, 2)
+      ctx.dist['tableau-stiffly-accurate'] += 1
+    return a_ex, a_im, b_ex, b_im
 
   def enc_tab(t, num):
     a_ex, a_im, b_ex, b_im = t
@@ -642,6 +650,8 @@ def _probe_reductions(ctx, ti, jnp):
                for i in range(s_ - 1)]
       tb_ex = [float(v) for v in rng.uniform(0.2, 1, s_)]
       tb_im = [float(v) for v in rng.uniform(0.2, 1, s_)]
+      if rng.random() < 0.4:   # stiffly accurate implicit part, last explicit weight zero, b_ex != last explicit row
+        tb_im, tb_ex[-1] = list(ta_im[-1]), 0.0
       tab = ti.ImExButcherTableau(a_ex=ta_ex, a_im=ta_im, b_ex=tb_ex, b_im=tb_im)
       inpt = dict(inp, a_ex=ta_ex, a_im=ta_im, b_ex=tb_ex, b_im=tb_im)
       ctx.expect(close(ti.imex_runge_kutta(tab, eqx, dt)(j0), erk([[]] + ta_ex, tb_ex)),
